@@ -160,3 +160,32 @@ func HarnessC15PeriodicCancelled() {
 	vndAssert(!late, "nothing-exported-after-shutdown-returned")
 	vndAssert(sd == 1, "exporter-shut-down-exactly-once")
 }
+
+// C15.tworeaders: MeterProvider.Shutdown / ForceFlush reach every registered
+// reader, whatever the state of the others and of the context: each reader is
+// shut down exactly once
+func HarnessC15TwoReaders() {
+	r1, r2 := NewManualReader(), NewManualReader()
+	conf := config{res: resource.Empty(), readers: []Reader{r1, r2}, exemplarFilter: exemplar.AlwaysOffFilter}
+	flush, sdown := conf.readerSignals()
+	mp := &MeterProvider{pipes: newPipelines(conf.res, conf.readers, conf.views, conf.exemplarFilter), forceFlush: flush, shutdown: sdown}
+	c, err := mp.Meter("m").Int64Counter("c")
+	vndAssert(err == nil, "instrument-created")
+	c.Add(context.Background(), 1)
+	firstDown := vndChoice(2) == 1
+	if firstDown {
+		vndAssert(r1.Shutdown(context.Background()) == nil, "reader-shutdown-first-time-nil")
+	}
+	ctx := context.Background()
+	if vndChoice(2) == 1 {
+		cctx, cancel := context.WithCancel(ctx)
+		cancel()
+		ctx = cctx
+	}
+	mp.Shutdown(ctx)
+	vndReach("shutdown-returned")
+	var rm metricdata.ResourceMetrics
+	vndAssert(errors.Is(r1.Collect(context.Background(), &rm), ErrReaderShutdown), "every-reader-is-shut-down")
+	vndAssert(errors.Is(r2.Collect(context.Background(), &rm), ErrReaderShutdown), "every-reader-is-shut-down")
+	vndAssert(errors.Is(r2.Shutdown(context.Background()), ErrReaderShutdown), "reader-second-shutdown-returns-documented-error")
+}
